@@ -136,12 +136,23 @@ func genC04(rng *rand.Rand, n int, emit func(Case), dist map[string]int) {
 			path := []string{"/a", "/b/:id", "", "/", "/x/*", "/a/b", "/users"}[rng.Intn(7)]
 			fs, sxs, ids := mkMWs([]int{0, 0, 1, 2}[rng.Intn(4)])
 			if owner < 0 {
-				e.Add(method, path, handler, fs...)
+				if method == "GET" && h%2 == 0 {
+					e.GET(path, handler, fs...)
+				} else {
+					e.Add(method, path, handler, fs...)
+				}
 				routes[h] = routeInfo{owner: -1, chain: ids, full: path}
 				fullPaths = append(fullPaths, path)
 			} else {
 				g := groups[owner]
-				g.g.Add(method, path, handler, fs...)
+				switch {
+				case method == "GET" && h%2 == 0:
+					g.g.GET(path, handler, fs...)
+				case method == "POST" && h%2 == 0:
+					g.g.POST(path, handler, fs...)
+				default:
+					g.g.Add(method, path, handler, fs...)
+				}
 				routes[h] = routeInfo{owner: owner, chain: append(append([]int(nil), g.mws...), ids...), full: g.prefix + path, host: g.host}
 				fullPaths = append(fullPaths, g.prefix+path)
 			}
